@@ -11,6 +11,7 @@ import numpy as np
 
 from rv import core, zoo, monitors
 
+ANCHORS = ['FCSData.hist_bins']      # functions the property is anchored in: never entered => inconclusive
 LEVEL = 'exploration'
 LEVEL_TEXT = 'Contract on the real hist_bins (class attribute rebound, so gate/plots/Excel are monitored too): count, monotonicity, coverage, positive log edges, logicle edges vs an independent transform, centring for default n, list == per-channel, call-history independence, refusals. Exploration.'
 TECHNIQUE = 'runtime contract on FCSData.hist_bins with an independent logicle reference and centring oracle'
